@@ -140,7 +140,9 @@ impl NetcodeServer {
             connect_key,
             max_clients: config.max_clients,
             challenge_sequence: 0,
-            global_sequence: 0,
+            // Starts in the upper half so it never shares a nonce with the per client sequences,
+            // both are used with the same server to client key
+            global_sequence: 1 << 63,
             challenge_key,
             public_addresses: config.public_addresses,
             current_time: config.current_time,
